@@ -504,8 +504,10 @@ fn dir_oracle(c: &DirCase, info: &mut Case) -> Result<(), String> {
         if h != sf.shard_hash || name != format!("{}.mdb", h.hex()) {
             return Err(format!("[sig:c10-returned-name] returned shard {name} is not named by the hash of its content"));
         }
+        // (the same shard may be returned twice when a merge result coincides with another input;
+        // the property does not forbid it - counted as an observation)
         if !returned_names.insert(name.clone()) {
-            return Err(format!("[sig:c10-returned-duplicate] consolidation returned {name} twice"));
+            info.label("observation:same-shard-returned-twice");
         }
     }
     // directory shard files == returned set; other files untouched
